@@ -102,8 +102,9 @@ Definition name_from_bytes (l : bytes) : option name :=
 Definition comp_from_bytes (l : bytes) : option comp :=
   match read_comp l with RdOk c _ => Some c | _ => None end.
 
-(* ---- hash input (Component.HashInto feeds: 8-byte big-endian type, then the value) ---- *)
-Definition comp_hash_input (c : comp) : bytes := be 8 (ctyp c) ++ cval c.
+(* ---- hash input (Component.HashInto feeds: 8-byte big-endian type, 8-byte big-endian value length, then the value;
+        the length was added by the /repo fix of the hash-input collision, see docs/C14.md) ---- *)
+Definition comp_hash_input (c : comp) : bytes := be 8 (ctyp c) ++ be 8 (N.of_nat (length (cval c))) ++ cval c.
 Definition name_hash_input (n : name) : bytes := concat (map comp_hash_input n).
 
 (* ---- URI strings: a Go string is modelled as its byte list ---- *)
@@ -439,6 +440,10 @@ Definition to_full_name (digest : bytes) (n : name) : pres name :=
   | None => PPanic
   | Some l => if ctyp l =? 1 then POk n else POk (n ++ [mkc 1 digest])
   end.
+
+(* the hash input before the fix: no length, hence no component boundaries (kept to show the length is needed) *)
+Definition comp_hash_input_nolen (c : comp) : bytes := be 8 (ctyp c) ++ cval c.
+Definition name_hash_input_nolen (n : name) : bytes := concat (map comp_hash_input_nolen n).
 
 (* Pattern compare / equal (strings.Compare on tags = bytewise) *)
 Definition cpat_cmp (a b : cpat) : comparison :=
